@@ -242,8 +242,69 @@ func (c *ctx) errorsArePositioned(fn *types.Func, depth int) bool {
 	return ok
 }
 
+// hoistSorter finds the function that turns the set of recorded user expressions into the ordered list the
+// prologue is written from: the package-level function of signature func(map[ast.Expr]struct{}) []ast.Expr.
+func (c *ctx) hoistSorter() (*types.Func, *fileCtx, *ast.FuncDecl) {
+	var fn *types.Func
+	var rfc *fileCtx
+	var rfd *ast.FuncDecl
+	n := 0
+	for _, fc := range c.files {
+		if fc.pkg.PkgPath != c.inter.PkgPath {
+			continue
+		}
+		for _, d := range fc.file.Decls {
+			fd, ok := d.(*ast.FuncDecl)
+			if !ok || fd.Recv != nil || fd.Body == nil {
+				continue
+			}
+			f, _ := fc.pkg.TypesInfo.Defs[fd.Name].(*types.Func)
+			if f == nil {
+				continue
+			}
+			sig := f.Type().(*types.Signature)
+			if sig.Params().Len() != 1 || sig.Results().Len() != 1 {
+				continue
+			}
+			if sig.Params().At(0).Type().String() == "map[go/ast.Expr]struct{}" && sig.Results().At(0).Type().String() == "[]go/ast.Expr" {
+				fn, rfc, rfd = f, fc, fd
+				n++
+			}
+		}
+	}
+	if n != 1 {
+		return nil, nil, nil
+	}
+	return fn, rfc, rfd
+}
+
+// singleDef: the expression a local identifier is defined from, if it is assigned exactly once in fd.
+func (c *ctx) singleDef(fc *fileCtx, fd *ast.FuncDecl, id *ast.Ident) ast.Expr {
+	info := fc.pkg.TypesInfo
+	obj := astx.ObjOf(info, id)
+	if obj == nil {
+		return nil
+	}
+	var def ast.Expr
+	n := 0
+	astx.Writes(fd.Body, func(l ast.Expr, at ast.Node) {
+		if astx.IdentObj(info, l) != obj {
+			return
+		}
+		n++
+		if as, ok := at.(*ast.AssignStmt); ok && len(as.Rhs) == 1 && len(as.Lhs) == 1 {
+			def = as.Rhs[0]
+		}
+	})
+	if n != 1 {
+		return nil
+	}
+	return def
+}
+
 // G12 prologue protocol, G13 wrapper scope.
 func (c *ctx) prologue() {
+	sorter, sorterFc, sorterFd := c.hoistSorter()
 	for _, name := range []string{"generateFlow", "generateParallel"} {
 		fc, fd := c.findFunc(c.inter.PkgPath, "generator", name)
 		if fd == nil {
@@ -279,9 +340,28 @@ func (c *ctx) prologue() {
 					dst = "out"
 				}
 				k := "exec:" + dst
-				if c2, ok := ic.Resolve(call.Args[2]).(*ast.CallExpr); ok {
-					if f2 := astx.Callee(info, c2); f2 != nil && f2.Name() == "paramExprs" {
-						k += ":paramExprs"
+				// the data: the sorted recorded set, as it is or as (the only content of) a field of a data struct
+				dataArg := ic.Resolve(call.Args[2])
+				if id, ok := astx.Unparen(dataArg).(*ast.Ident); ok {
+					if v := c.singleDef(fc, fd, id); v != nil {
+						dataArg = v
+					}
+				}
+				if u, ok := astx.Unparen(dataArg).(*ast.UnaryExpr); ok && u.Op == token.AND {
+					dataArg = u.X
+				}
+				isSorted := func(e ast.Expr) bool {
+					c2, ok := astx.Unparen(ic.Resolve(e)).(*ast.CallExpr)
+					return ok && sorter != nil && astx.Callee(info, c2) == sorter
+				}
+				if isSorted(dataArg) {
+					k += ":paramExprs"
+				} else if cl, ok := astx.Unparen(dataArg).(*ast.CompositeLit); ok {
+					for _, el := range cl.Elts {
+						if kv, ok := el.(*ast.KeyValueExpr); ok && isSorted(kv.Value) {
+							k += ":paramExprs"
+							break
+						}
 					}
 				}
 				evs = append(evs, ev{k, token.Pos(len(evs)), call})
@@ -359,7 +439,7 @@ func (c *ctx) prologue() {
 		}
 	}
 	// paramExprs sorted by position
-	if fc, fd := c.findFunc(c.inter.PkgPath, "", "paramExprs"); fd != nil {
+	if fc, fd := sorterFc, sorterFd; fd != nil {
 		info := fc.pkg.TypesInfo
 		good := false
 		ast.Inspect(fd.Body, func(n ast.Node) bool {
